@@ -317,6 +317,11 @@ def run(R):
         "values over all address-taken module functions with identical signature); reflection, unsafe, cgo and "
         "writes inside third-party libraries are outside of it: library calls on shared memory are compared with "
         "the list Footprint.trustedExt of calls documented to be safe for concurrent use",
+        "trusted library calls on shared memory (Footprint.trustedExt): text/template Execute, cel-go Program.Eval / "
+        "Env.Compile / Check / Program, validator Struct, http.Client.Do, response bodies / headers, gjson results, "
+        "base64, jose Builder, httpsig Signer.Sign, and go-jose (*JSONWebKey).Thumbprint (called by jwtSigner.Hash on a "
+        "copy of the signer's JWK; v4.0.4 jwk.go:388 reviewed: it only reads the key's public parameters into newly "
+        "allocated buffers and hashes them)",
         "memory newly allocated by WithConfig is private to it until it returns (the machine allocates and "
         "initialises a cell in one step)",
         "data-race freedom is a runtime property: the model shows the absence of conflicting accesses w.r.t. the "
